@@ -95,3 +95,94 @@ func (cc *callCounter) ofState(s *astx.State, ret *ast.ReturnStmt, depth int) (i
 	}
 	return lo, hi
 }
+
+// soleDefinition returns the defining expression of a local variable that is assigned exactly
+// once in body (`x := e` or `var x = e`), else nil.
+func soleDefinition(info *types.Info, body ast.Node, obj types.Object) ast.Expr {
+	if obj == nil {
+		return nil
+	}
+	var def ast.Expr
+	n := 0
+	ast.Inspect(body, func(x ast.Node) bool {
+		switch s := x.(type) {
+		case *ast.AssignStmt:
+			for i, l := range s.Lhs {
+				if astx.ObjOf(info, l) == obj {
+					n++
+					if len(s.Lhs) == len(s.Rhs) {
+						def = s.Rhs[i]
+					} else {
+						def = nil
+						n++
+					}
+				}
+			}
+		case *ast.ValueSpec:
+			for i, name := range s.Names {
+				if info.Defs[name] == obj {
+					n++
+					if i < len(s.Values) {
+						def = s.Values[i]
+					} else {
+						n++
+					}
+				}
+			}
+		case *ast.IncDecStmt:
+			if astx.ObjOf(info, s.X) == obj {
+				n++
+			}
+		case *ast.RangeStmt:
+			if (s.Key != nil && astx.ObjOf(info, s.Key) == obj) || (s.Value != nil && astx.ObjOf(info, s.Value) == obj) {
+				n += 2
+			}
+		case *ast.UnaryExpr:
+			if s.Op.String() == "&" && astx.ObjOf(info, s.X) == obj {
+				n += 2
+			}
+		}
+		return true
+	})
+	if n != 1 {
+		return nil
+	}
+	return def
+}
+
+// soleDefinitionOutsideLoops reports whether obj has exactly one assignment that is not inside a loop
+// (its definition); assignments inside loops are the accumulation steps.
+func soleDefinitionOutsideLoops(info *types.Info, body *ast.BlockStmt, obj types.Object) bool {
+	if obj == nil {
+		return false
+	}
+	n := 0
+	var visit func(x ast.Node, inLoop bool)
+	visit = func(x ast.Node, inLoop bool) {
+		ast.Inspect(x, func(y ast.Node) bool {
+			switch s := y.(type) {
+			case *ast.ForStmt:
+				if y != x {
+					visit(s.Body, true)
+					return false
+				}
+			case *ast.RangeStmt:
+				if y != x {
+					visit(s.Body, true)
+					return false
+				}
+			case *ast.AssignStmt:
+				if !inLoop {
+					for _, l := range s.Lhs {
+						if astx.ObjOf(info, l) == obj {
+							n++
+						}
+					}
+				}
+			}
+			return true
+		})
+	}
+	visit(body, false)
+	return n == 1
+}
